@@ -2,7 +2,7 @@
 ** h_string.c - explicit-state exploration of one heap String (C16; with prop=C12 the
 ** failed-operation self-loops are added on the same state graph).
 **
-** Parameters: mode=bfs|ladder (ladder: maxn=N, see "ladder" below)
+** Parameters: mode=bfs|ladder|stack (ladder: maxn=N, see "ladder" below; stack: C12 grid of refused writes into stack Strings)
 **             alpha=N (alphabet {a,b,c..} size 2..4)   maxlen=L (content bound)
 **             ulen=K (operand strings: every string of length <= K, default 2)
 **             hashop=1 ("light" mode: hash(s) is an operation, not a query of the state oracle)
@@ -33,7 +33,7 @@ static int propC12;
 ** length the string had when its hash was last asked (hq, -1 = not asked in this history): whatever
 ** the implementation remembers from a hash() call survives the edits that follow. */
 static int hashop;
-static int hq = -1;
+static int hq = -1, hfresh = 0;
 static char hq_text[64];
 static var SENT;              /* another String, hashed at the start of every execution */
 
@@ -101,7 +101,7 @@ static void reset(void) {
   lastkind = "init"; vf.phase = "string/init";
   /* every execution starts from the same "last String hashed": not this one */
   if (SENT) { volatile uint64_t hs = hash(SENT); (void)hs; }
-  hq = -1; hq_text[0] = 0;
+  hq = -1; hfresh = 0; hq_text[0] = 0;
 }
 
 static void cleanup(void) {
@@ -126,7 +126,7 @@ static size_t canon(char* buf, size_t cap) {
   /* under ASan malloc_usable_size is exactly the requested size: a deterministic part of the concrete state */
   o += snprintf(buf + o, cap - o, " alloc=%zu", us);
 #endif
-  if (hashop) o += snprintf(buf + o, cap - o, " hash-last-asked-at-len=%d", hq);
+  if (hashop) o += snprintf(buf + o, cap - o, " hash-last-asked-at-len=%d%s", hq, hq < 0 ? "" : hfresh ? ",not-edited-since" : ",edited-since");
   return o;
 }
 
@@ -372,7 +372,15 @@ static void setkind(const char* k) {
   vf.phase = phasebuf;
 }
 
-static int apply(int op) {
+/*
+** In light mode (hashop=1) operations run WITHOUT a try block: entering and leaving one looks the
+** Exception object up in the thread-local Table, i.e. hashes another String between any two
+** operations, which would hide anything String_Hash remembers about this one.  Only operations that
+** must succeed are enabled there; an exception would end the process (reported as a dead harness).
+*/
+#define RUN(stmt) (hashop ? ({ stmt; (var)NULL; }) : VF_CATCH(stmt))
+
+static int apply_inner(int op) {
   var e;
   char before[512];
   size_t rl = strlen(mdl);
@@ -380,7 +388,7 @@ static int apply(int op) {
   if (op < NU) {                                            /* assign(u) */
     const char* u = U[op];
     setkind("assign");
-    e = VF_CATCH(assign(S, $S((char*)u)));
+    e = RUN(assign(S, $S((char*)u)));
     if (e) { vf_violation(LB("raises"), NULL, "assign(\"%s\", \"%s\") raised %s", mdl, u, vf_exc_name(e)); return VF_BAD; }
     strcpy(mdl, u);
     return VF_OK;
@@ -390,7 +398,7 @@ static int apply(int op) {
     const char* u = U[op % NU];
     if (rl + strlen(u) > (size_t)L) return VF_SKIP;
     setkind(app ? "append" : "concat");
-    if (app) e = VF_CATCH(append(S, $S((char*)u))); else e = VF_CATCH(concat(S, $S((char*)u)));
+    if (app) e = RUN(append(S, $S((char*)u))); else e = RUN(concat(S, $S((char*)u)));
     if (e) { vf_violation(LB("raises"), NULL, "%s(\"%s\", \"%s\") raised %s", lastkind, mdl, u, vf_exc_name(e)); return VF_BAD; }
     strcat(mdl, u);
     return VF_OK;
@@ -402,7 +410,8 @@ static int apply(int op) {
     snprintf(kind, sizeof kind, "rem-%s", w);
     setkind(kind);
     char* p = strstr(mdl, u);
-    if (propC12 && p != NULL) return VF_SKIP;   /* removing a present substring is a valid operation: judged by C16, not repeated here */
+    if (propC12 && p != NULL) return VF_SKIP;
+    if (hashop && p == NULL) return VF_SKIP;   /* light mode runs without try blocks: only operations that must succeed */   /* removing a present substring is a valid operation: judged by C16, not repeated here */
     {
       probe_kind = -1; probe_arg = u;
       const char* sym = probe(probe_child);
@@ -420,10 +429,10 @@ static int apply(int op) {
     if (p == NULL) {
       /* absent: the string must be left unchanged; an exception is optional (ValueError|KeyError) */
       canon(before, sizeof before);
-      e = VF_CATCH(rem(S, $S((char*)u)));
+      e = RUN(rem(S, $S((char*)u)));
       return expect_fail(e, ValueError, KeyError, KeyError, 1, "rem of an absent substring", before);
     }
-    e = VF_CATCH(rem(S, $S((char*)u)));
+    e = RUN(rem(S, $S((char*)u)));
     if (e) { vf_violation(LB("raises"), NULL, "rem(\"%s\", \"%s\") of a present substring raised %s", mdl, u, vf_exc_name(e)); return VF_BAD; }
     {
       char exp[REFCAP]; size_t ul = strlen(u);
@@ -443,7 +452,7 @@ static int apply(int op) {
     size_t n = (size_t)(op - base_resize());
     if (n > rl + 2) return VF_SKIP;
     setkind(n < rl ? "resize-shrink" : n == rl ? "resize-same" : "resize-grow");
-    e = VF_CATCH(resize(S, n));
+    e = RUN(resize(S, n));
     if (e) { vf_violation(LB("raises"), NULL, "resize(\"%s\", %zu) raised %s", mdl, n, vf_exc_name(e)); return VF_BAD; }
     if (n <= rl) { mdl[n] = 0; return VF_OK; }
     /*
@@ -472,7 +481,7 @@ static int apply(int op) {
     if (pos + strlen(u) > (size_t)L) return VF_SKIP;
     setkind(pos == rl ? "print_to-at-end" : pos == 0 ? "print_to-at-start" : "print_to-inside");
     volatile int ret = -12345;
-    e = VF_CATCH(ret = print_to(S, (int)pos, "%s", $S((char*)u)));
+    e = RUN(ret = print_to(S, (int)pos, "%s", $S((char*)u)));
     if (e) { vf_violation(LB("raises"), NULL, "print_to(\"%s\", %zu, \"%%s\", \"%s\") raised %s", mdl, pos, u, vf_exc_name(e)); return VF_BAD; }
     strcpy(mdl + pos, u);
     if (ret != (int)(pos + strlen(u))) {
@@ -485,7 +494,7 @@ static int apply(int op) {
   switch (m) {
   case M_COPY:
     setkind("copy");
-    e = VF_CATCH(R[1] = copy(S));
+    e = RUN(R[1] = copy(S));
     if (e) { vf_violation(LB("raises"), NULL, "copy raised %s", vf_exc_name(e)); return VF_BAD; }
     if (R[1] == S || sval() == ((struct String*)R[1])->val) { vf_violation(LB("copy-shares-buffer"), NULL, "copy shares the original's buffer"); return VF_BAD; }
     del_S(); S = R[1]; R[1] = NULL; S_managed = 1;
@@ -493,7 +502,7 @@ static int apply(int op) {
   case M_ASSIGN_INTO_FRESH:
     setkind("assign-into-fresh");
     R[1] = new_raw(String, $S("bbbbbbbb"));
-    e = VF_CATCH(assign(R[1], S));
+    e = RUN(assign(R[1], S));
     if (e) { vf_violation(LB("raises"), NULL, "assign raised %s", vf_exc_name(e)); del_raw(R[1]); R[1] = NULL; return VF_BAD; }
     del_S(); S = R[1]; R[1] = NULL; S_managed = 0;
     return VF_OK;
@@ -509,9 +518,9 @@ static int apply(int op) {
       if (probe_result_wrong("", "rem(s, heap string of equal value)")) { mdl[0] = 0; return VF_BAD; }
     }
     R[1] = new_raw(String, $S(mdl));
-    if (m == M_ASSIGN_EQUAL_VALUE) e = VF_CATCH(assign(S, R[1]));
-    else if (m == M_CONCAT_EQUAL_VALUE) e = VF_CATCH(concat(S, R[1]));
-    else e = VF_CATCH(rem(S, R[1]));
+    if (m == M_ASSIGN_EQUAL_VALUE) e = RUN(assign(S, R[1]));
+    else if (m == M_CONCAT_EQUAL_VALUE) e = RUN(concat(S, R[1]));
+    else e = RUN(rem(S, R[1]));
     {
       int argbad = strcmp(c_str(R[1]), mdl) != 0;
       del_raw(R[1]); R[1] = NULL;
@@ -537,7 +546,7 @@ static int apply(int op) {
     snprintf(kind, sizeof kind, "hash-after-%s", prev);
     setkind(kind);
     volatile uint64_t h = 0;
-    e = VF_CATCH(h = hash(S));
+    e = RUN(h = hash(S));
     if (e) { vf_violation(LB("raises"), NULL, "hash raised %s", vf_exc_name(e)); return VF_BAD; }
     uint64_t hm = murmur64a(mdl, rl, 0xCe110), hd = hash_data(mdl, rl);
     if (h != hm || h != hd) {
@@ -547,7 +556,7 @@ static int apply(int op) {
         stale ? " - it is the hash of \"" : "", stale ? hq_text : "", stale ? "\", the content when hash was last asked" : "");
       return VF_BAD;
     }
-    hq = (int)rl; snprintf(hq_text, sizeof hq_text, "%s", mdl);
+    hq = (int)rl; hfresh = 1; snprintf(hq_text, sizeof hq_text, "%s", mdl);
     vf.evaluations++;
     return VF_OK; }
   case M_ASSIGN_SELF: case M_CONCAT_SELF: case M_REM_SELF: {
@@ -564,9 +573,9 @@ static int apply(int op) {
       if (m == M_REM_SELF) exp0[0] = 0;
       if (probe_result_wrong(exp0, miscname[m])) return VF_BAD;
     }
-    if (m == M_ASSIGN_SELF) e = VF_CATCH(assign(S, S));
-    else if (m == M_CONCAT_SELF) e = VF_CATCH(concat(S, S));
-    else e = VF_CATCH(rem(S, S));
+    if (m == M_ASSIGN_SELF) e = RUN(assign(S, S));
+    else if (m == M_CONCAT_SELF) e = RUN(concat(S, S));
+    else e = RUN(rem(S, S));
     if (e) { vf_violation(LB("raises"), NULL, "%s raised %s on \"%s\"", lastkind, vf_exc_name(e), mdl); return VF_BAD; }
     if (m == M_REM_SELF) {
       char* v = sval(); size_t us = malloc_usable_size(v);
@@ -641,6 +650,14 @@ static int apply(int op) {
     return expect_fail(e, FormatError, FormatError, FormatError, 0, "print_to(s, len, \"%s\") without an argument", before);
   }
   return VF_SKIP;
+}
+
+/* apply + bookkeeping of "was the content edited since hash was last asked" (part of the light-mode state key) */
+static int apply(int op) {
+  char before[REFCAP]; strcpy(before, mdl);
+  int r = apply_inner(op);
+  if (r == VF_OK && strcmp(before, mdl) != 0) hfresh = 0;
+  return r;
 }
 
 static int nontrivial(void) {
@@ -744,10 +761,29 @@ static int ladder_check(var s, const char* expect) {
 enum { LO_ASSIGN, LO_CONCAT, LO_APPEND, LO_PRINT_END, LO_PRINT_START, LO_RESIZE_SHRINK, LO_RESIZE_GROW, LO_REM, LO_REM_ABSENT, LO_COPY, LO_N };
 static const char* lo_name[] = { "assign", "concat", "append", "print_to-at-end", "print_to-at-start", "resize-shrink", "resize-grow", "rem", "rem-absent", "copy" };
 
-/* hash asked BEFORE the operation: hash ; edit ; hash is then part of every ladder case */
-static void prehash(var s, const char* init) {
-  uint64_t h = hash(s);
-  if (h != murmur64a(init, strlen(init), 0xCe110)) vf_violation(LL("hash-before-operation"), NULL, "hash of the initial %zu character string is not MurmurHash64A of its bytes", strlen(init));
+/*
+** hash(s) is asked immediately BEFORE and immediately AFTER the operation, inside the same try block:
+** entering or leaving a try block looks the Exception object up in the thread-local Table, which hashes
+** a String key of its own - and whatever String_Hash may remember would then be about that key.
+*/
+static volatile uint64_t l_pre_h, l_post_h;
+static volatile int l_post_valid;
+#define LOP(stmt) do { \
+    l_post_valid = 0; \
+    e = VF_CATCH(l_pre_h = hash(s); stmt; l_post_h = hash(s); l_post_valid = 1); \
+    if (l_pre_h != murmur64a(l_init, strlen(l_init), 0xCe110)) { \
+      vf_violation(LL("hash-before-operation"), NULL, "hash of the initial %zu character string is not MurmurHash64A of its bytes", strlen(l_init)); bad = 1; } \
+  } while (0)
+
+static int posthash_bad(const char* expect) {
+  if (!l_post_valid) return 0;
+  l_post_valid = 0;
+  uint64_t want = murmur64a(expect, strlen(expect), 0xCe110);
+  if (l_post_h == want) return 0;
+  vf_violation(LL(l_post_h == l_pre_h ? "stale-hash-of-earlier-content" : "hash-after-operation"), NULL,
+    "hash(s) right after the operation is %" PRIx64 ", MurmurHash64A of the %zu expected bytes is %" PRIx64 "%s", (uint64_t)l_post_h, strlen(expect), want,
+    l_post_h == l_pre_h ? " - it is the hash the string had before the operation" : "");
+  return 1;
 }
 
 static void ladder_one(int N, int P, int op) {
@@ -762,47 +798,51 @@ static void ladder_one(int N, int P, int op) {
   var e = NULL;
   var s = NULL;
   int bad = 0;
+  const char* l_init = "";
+  l_post_valid = 0;
   switch (op) {
   case LO_ASSIGN:
     snprintf(l_expect, sizeof l_expect, "%s%s", l_prefix, l_payload);
-    s = new_raw(String, $S("seed")); prehash(s, "seed");
-    e = VF_CATCH(assign(s, $S(l_expect)));
+    s = new_raw(String, $S("seed")); l_init = "seed";
+    LOP(assign(s, $S(l_expect)));
     break;
   case LO_CONCAT: case LO_APPEND:
     snprintf(l_expect, sizeof l_expect, "%s%s", l_prefix, l_payload);
-    s = new_raw(String, $S(l_prefix)); prehash(s, l_prefix);
-    if (op == LO_CONCAT) e = VF_CATCH(concat(s, $S(l_payload))); else e = VF_CATCH(append(s, $S(l_payload)));
+    s = new_raw(String, $S(l_prefix)); l_init = l_prefix;
+    if (op == LO_CONCAT) LOP(concat(s, $S(l_payload))); else LOP(append(s, $S(l_payload)));
     break;
   case LO_PRINT_END:
     snprintf(l_expect, sizeof l_expect, "%s%s", l_prefix, l_payload);
-    s = new_raw(String, $S(l_prefix)); prehash(s, l_prefix);
-    e = VF_CATCH(ret = print_to(s, P, "%s", $S(l_payload)));
+    s = new_raw(String, $S(l_prefix)); l_init = l_prefix;
+    LOP(ret = print_to(s, P, "%s", $S(l_payload)));
     if (!e && ret != P + N) { vf_violation(LL("returned-position"), NULL, "print_to(s, %d, \"%%s\", payload) returned %d, expected %d", P, (int)ret, P + N); bad = 1; }
+    if (!e && !bad) bad = posthash_bad(l_expect);
     if (!e && !bad) bad = ladder_check(s, l_expect);
     if (!e && !bad) {
       /* what follows a formatted write must land right behind it */
+      static char before[LCAP]; strcpy(before, l_expect); l_init = before;
       strcat(l_expect, "Z");
-      e = VF_CATCH(append(s, $S("Z")));
+      LOP(append(s, $S("Z")));
     }
     break;
   case LO_PRINT_START:
     if (P == 0) return;
     snprintf(l_expect, sizeof l_expect, "%s", l_payload);
-    s = new_raw(String, $S(l_prefix)); prehash(s, l_prefix);
-    e = VF_CATCH(ret = print_to(s, 0, "%s", $S(l_payload)));
+    s = new_raw(String, $S(l_prefix)); l_init = l_prefix;
+    LOP(ret = print_to(s, 0, "%s", $S(l_payload)));
     if (!e && ret != N) { vf_violation(LL("returned-position"), NULL, "print_to(s, 0, \"%%s\", payload) over a %d character string returned %d, expected %d", P, (int)ret, N); bad = 1; }
     break;
   case LO_RESIZE_SHRINK:
     snprintf(l_expect, sizeof l_expect, "%s%s%s", l_prefix, l_payload, l_suffix);
-    s = new_raw(String, $S(l_expect)); prehash(s, l_expect);
-    e = VF_CATCH(resize(s, (size_t)N));
+    s = new_raw(String, $S(l_expect)); l_init = l_expect;
+    LOP(resize(s, (size_t)N));
     l_expect[N] = 0;                            /* N <= P+N+3 always: truncation to the first N characters */
     break;
   case LO_RESIZE_GROW: {
     if (N <= P) return;
     snprintf(l_expect, sizeof l_expect, "%s", l_prefix);
-    s = new_raw(String, $S(l_prefix)); prehash(s, l_prefix);
-    e = VF_CATCH(resize(s, (size_t)N));
+    s = new_raw(String, $S(l_prefix)); l_init = l_prefix;
+    LOP(resize(s, (size_t)N));
     if (!e) {
       char* v = ((struct String*)s)->val; size_t us = malloc_usable_size(v);
       if (us < (size_t)N + 1) { vf_violation(LL("allocation-too-small"), NULL, "after resize(%d) the allocation has %zu usable bytes", N, us); bad = 1; }
@@ -814,21 +854,21 @@ static void ladder_one(int N, int P, int op) {
   case LO_REM:
     snprintf(l_tmp, sizeof l_tmp, "%s%s%s", l_prefix, l_payload, l_suffix);
     snprintf(l_expect, sizeof l_expect, "%s%s", l_prefix, l_suffix);
-    s = new_raw(String, $S(l_tmp)); prehash(s, l_tmp);
-    e = VF_CATCH(rem(s, $S(l_payload)));
+    s = new_raw(String, $S(l_tmp)); l_init = l_tmp;
+    LOP(rem(s, $S(l_payload)));
     break;
   case LO_REM_ABSENT: {
     snprintf(l_expect, sizeof l_expect, "%s%s%s", l_prefix, l_payload, l_suffix);
-    s = new_raw(String, $S(l_expect)); prehash(s, l_expect);
+    s = new_raw(String, $S(l_expect)); l_init = l_expect;
     static char absent[LCAP]; snprintf(absent, sizeof absent, "%s!", l_payload);
-    e = VF_CATCH(rem(s, $S(absent)));
+    LOP(rem(s, $S(absent)));
     if (e && e != ValueError && e != KeyError) { vf_violation(LL("wrong-exception"), NULL, "rem of an absent substring raised %s", vf_exc_name(e)); bad = 1; }
     e = NULL;
     break; }
   case LO_COPY:
     snprintf(l_expect, sizeof l_expect, "%s%s", l_prefix, l_payload);
-    s = new_raw(String, $S(l_expect)); prehash(s, l_expect);
-    e = VF_CATCH(R[1] = copy(s));
+    s = new_raw(String, $S(l_expect)); l_init = l_expect;
+    LOP(R[1] = copy(s));
     if (!e) {
       if (((struct String*)R[1])->val == ((struct String*)s)->val) { vf_violation(LL("copy-shares-buffer"), NULL, "copy shares the original's buffer"); bad = 1; }
       if (!bad) bad = ladder_check(R[1], l_expect);
@@ -838,6 +878,7 @@ static void ladder_one(int N, int P, int op) {
     break;
   }
   if (e) { vf_violation(LL("raises"), NULL, "%s raised %s", l_opname, vf_exc_name(e)); bad = 1; }
+  if (!bad) bad = posthash_bad(l_expect);
   if (!bad) bad = ladder_check(s, l_expect);
   if (vf.replay) printf("  %s: %s\n", vf_cur, bad ? "VIOLATION" : "ok");
   if (s) del_raw(s);
@@ -873,6 +914,101 @@ static void ladder(void) {
   vf_extra("ladder", "\"payload lengths 0..%d x prefix lengths {0,1,5,127,128} x %d operations\"", maxn, (int)LO_N);
 }
 
+
+/* ---- stack Strings as receivers (C12): every write must be refused ----------------------
+** A String that is not on the heap ($S over a writable char array) cannot be reallocated:
+** print_to / show_to / format_to into it, and assign / concat / append / resize of it, must raise
+** ValueError and leave the String - every byte of the array - exactly as it was, whether
+** the output would be shorter than, as long as, or longer than the current content.
+** Case id (replayable): "stack c=<content> op=<k> pos=<p> t=<text>".
+*/
+
+static const char* st_contents[] = { "0123456789", "abc", "" };
+static const char* st_texts[] = { "", "x", "xy", "vwxyz", "123456789", "ABCDEFGHIJ", "ABCDEFGHIJK", "a considerably longer piece of text" };
+enum { SO_PRINT_S, SO_PRINT_2S, SO_PRINT_LIT, SO_PRINT_INT, SO_PRINT_DOLLAR, SO_SHOW_INT, SO_SHOW_STR, SO_FORMAT_S, SO_FORMAT_D,
+       SO_ASSIGN, SO_CONCAT, SO_APPEND, SO_RESIZE, SO_N };
+static const char* so_name[] = { "print_to(s,pos,\"%s\",t)", "print_to(s,pos,\"%s-%s\",t,t)", "print_to(s,pos,literal t)", "print_to(s,pos,\"%li\",n)", "print_to(s,pos,\"%$\",t)",
+  "show_to(Int n,s,pos)", "show_to(String t,s,pos)", "format_to(s,pos,\"%s\",t)", "format_to(s,pos,\"%d\",n)",
+  "assign(s,t)", "concat(s,t)", "append(s,t)", "resize(s,len t)" };
+
+static void stack_grid(void) {
+  int rc = -1, rop = -1, rpos = -1, rt = -1;
+  if (vf.replay && sscanf(vf.replay, "stack c=%d op=%d pos=%d t=%d", &rc, &rop, &rpos, &rt) != 4) { fprintf(stderr, "replay: cannot parse '%s'\n", vf.replay); _exit(2); }
+  static char ph[96];
+  for (int c = 0; c < (int)(sizeof st_contents / sizeof st_contents[0]); c++)
+  for (int op = 0; op < SO_N; op++)
+  for (int t = 0; t < (int)(sizeof st_texts / sizeof st_texts[0]); t++) {
+    size_t cl = strlen(st_contents[c]);
+    size_t posv[3] = { 0, cl / 2, cl };
+    for (int pi = 0; pi < 3; pi++) {
+      int pos = (int)posv[pi];
+      if (pi > 0 && posv[pi] == posv[pi - 1]) continue;
+      if (op >= SO_ASSIGN && pi > 0) continue;                     /* no position argument */
+      if (vf.replay && !(c == rc && op == rop && pos == rpos && t == rt)) continue;
+      const char* text = st_texts[t];
+      int64_t num = t == 0 ? 7 : t == 1 ? -4 : t == 2 ? 42 : t == 3 ? 12345 : t == 4 ? 123456789 : t == 5 ? 1234567890 : t == 6 ? 12345678901LL : INT64_MIN;
+      /* how long would the output be, relative to what the String holds behind pos */
+      char outbuf[160]; int outlen;
+      switch (op) {
+      case SO_PRINT_2S: outlen = snprintf(outbuf, sizeof outbuf, "%s-%s", text, text); break;
+      case SO_PRINT_INT: case SO_SHOW_INT: outlen = snprintf(outbuf, sizeof outbuf, "%" PRId64, num); break;
+      case SO_FORMAT_D: outlen = snprintf(outbuf, sizeof outbuf, "%d", (int)num); break;
+      case SO_PRINT_DOLLAR: case SO_SHOW_STR: outlen = (int)strlen(text) + 2; break;
+      default: outlen = (int)strlen(text);
+      }
+      size_t room = cl - (size_t)pos;
+      const char* fit = op >= SO_ASSIGN ? (strlen(text) < cl ? "shorter" : strlen(text) == cl ? "equal" : "longer")
+                                        : ((size_t)outlen < room ? "shorter" : (size_t)outlen == room ? "equal" : "longer");
+      if (op == SO_PRINT_LIT && t == 0) continue;                  /* an empty format writes nothing and calls nothing */
+      snprintf(ph, sizeof ph, "string-stack/%s/%s", so_name[op], fit); vf.phase = ph;
+      vf_set_cur("stack c=%d op=%d pos=%d t=%d | $S(char[] = \"%s\"): %s with t=\"%s\" n=%" PRId64 " pos=%d (output %s than what is there)", c, op, pos, t, st_contents[c], so_name[op], text, num, pos, fit);
+      vf_watchdog(30);
+      /* the receiver: a writable array with a canary behind the terminator */
+      char buf[48], orig[48];
+      memset(buf, '#', sizeof buf); strcpy(buf, st_contents[c]); memcpy(orig, buf, sizeof buf);
+      var s = $S(buf);
+      var e = NULL;
+      switch (op) {
+      case SO_PRINT_S:      e = VF_CATCH(print_to(s, pos, "%s", $S((char*)text))); break;
+      case SO_PRINT_2S:     e = VF_CATCH(print_to(s, pos, "%s-%s", $S((char*)text), $S((char*)text))); break;
+      case SO_PRINT_LIT:    e = VF_CATCH(print_to(s, pos, text)); break;
+      case SO_PRINT_INT:    e = VF_CATCH(print_to(s, pos, "%li", $I(num))); break;
+      case SO_PRINT_DOLLAR: e = VF_CATCH(print_to(s, pos, "%$", $S((char*)text))); break;
+      case SO_SHOW_INT:     e = VF_CATCH(show_to($I(num), s, pos)); break;
+      case SO_SHOW_STR:     e = VF_CATCH(show_to($S((char*)text), s, pos)); break;
+      case SO_FORMAT_S:     e = VF_CATCH(format_to(s, pos, "%s", text)); break;
+      case SO_FORMAT_D:     e = VF_CATCH(format_to(s, pos, "%d", (int)num)); break;
+      case SO_ASSIGN:       e = VF_CATCH(assign(s, $S((char*)text))); break;
+      case SO_CONCAT:       e = VF_CATCH(concat(s, $S((char*)text))); break;
+      case SO_APPEND:       e = VF_CATCH(append(s, $S((char*)text))); break;
+      case SO_RESIZE:       e = VF_CATCH(resize(s, strlen(text))); break;
+      }
+      char lab[160];
+      int bad = 0;
+      if (((struct String*)s)->val != buf) {
+        snprintf(lab, sizeof lab, "%s/buffer-replaced", ph); vf_violation(lab, NULL, "the String no longer points at its array (exception: %s)", vf_exc_name(e)); bad = 1;
+      } else if (memcmp(buf, orig, sizeof buf) != 0) {
+        char now[64]; snprintf(now, sizeof now, "%.40s", buf);
+        snprintf(lab, sizeof lab, "%s/%s", ph, e ? "raised-but-changed" : "written-without-exception");
+        vf_violation(lab, NULL, "the array held \"%s\" and now holds \"%s\" (exception: %s); a String that is not on the heap must refuse with ValueError and stay unchanged", st_contents[c], now, vf_exc_name(e)); bad = 1;
+      } else if (e == NULL) {
+        snprintf(lab, sizeof lab, "%s/no-exception", ph); vf_violation(lab, NULL, "no exception was raised (array unchanged)"); bad = 1;
+      } else if (e != ValueError) {
+        snprintf(lab, sizeof lab, "%s/wrong-exception", ph); vf_violation(lab, NULL, "raised %s, ValueError expected", vf_exc_name(e)); bad = 1;
+      } else if (len(current(Exception)) != 0) {
+        snprintf(lab, sizeof lab, "%s/exception-depth", ph); vf_violation(lab, NULL, "exception depth not restored"); bad = 1;
+      }
+      if (vf.replay) printf("  %s: raised %s, array now \"%.40s\" -> %s\n", vf_cur, vf_exc_name(e), buf, bad ? "VIOLATION" : "ok");
+      vf.executions++; vf.evaluations++; vf.transitions++;
+      if (strcmp(fit, "longer") != 0) vf.nontrivial++;
+      if (vf_want_sample()) vf_sample("%s", vf_cur);
+    }
+  }
+  vf_watchdog(0); vf_cur_valid = 0;
+  vf.states = sizeof st_contents / sizeof st_contents[0];
+  vf_extra("stack_grid", "\"%d receiver contents x %d operations x %d texts x positions {0, mid, end}\"", (int)(sizeof st_contents / sizeof st_contents[0]), (int)SO_N, (int)(sizeof st_texts / sizeof st_texts[0]));
+}
+
 int main(int argc, char** argv) {
   vf_init(argc, argv);
   var roots[4] = { NULL, NULL, NULL, NULL };
@@ -887,11 +1023,14 @@ int main(int argc, char** argv) {
   const char* prop = vf_param("prop", "C16");
   propC12 = strcmp(prop, "C12") == 0;
   hashop = (int)vf_param_i("hashop", 0);
+  int probe_default = hashop ? 0 : 1;
   SENT = new_raw(String, $S("~another string, never equal in length to the explored ones~"));
-  do_probe = (int)vf_param_i("probe", 1);
+  do_probe = (int)vf_param_i("probe", probe_default);
+  if (hashop) { do_probe = 0; propC12 = 0; }
   alias = (int)vf_param_i("alias", 0);
 
   if (vf_param_is("mode", "ladder", "bfs")) { do_probe = 0; ladder(); vf_finish(); }
+  if (vf_param_is("mode", "stack", "bfs")) { do_probe = 0; stack_grid(); vf_finish(); }
 
   { char tmp[MAXU][16]; gen_strings(tmp, &NU, UL, 16); for (int i = 0; i < NU; i++) strcpy(U[i], tmp[i]); }
   {
